@@ -131,6 +131,9 @@ PROPERTIES = {
             {"name": "single_op_vjp", "cases": FE.c02_cases(tier, seed),
              "what": "one operation per case, backward with a prime-valued seed, every deposited gradient compared: element-wise ops over broadcast pairs and tracked subsets, neg/scale/powf(-2..4)/reciprocal/relu/sum(k)/reshape, matmul (flags, additive term, leading patterns, rank-1 forms), conv (strides 1..3, batches), user operations",
              "require": {"judged": 1500, "passes": 1500}},
+            {"name": "matmul_rank1", "cases": FE.rank1_matmul_cases(tier, seed),
+             "what": "matmul with a rank-1 operand next to a rank>=2 operand: vector x matrix, matrix x vector, single-column and single-row partners, sizes 1..3, both flags, batches [], [2], [2,2], every tracked subset, with and without additive term - forward value and every gradient",
+             "require": {"passes": 300}},
             {"name": "special_values", "cases": FE.special_value_cases(tier, seed),
              "what": "value-dependent corners: operands that are all zeros / all ones / all equal / contain one zero or one / tiny magnitudes / repeated rows, through every element-wise and unary operation with gradients, result flags, equality, nested construction and indexing",
              "require": {"passes": 500}},
